@@ -268,7 +268,7 @@ def library(draw, lang=None, nfunc=(4, 10), for_fortran=True, with_class=None, r
         fid += 1
     wc = (lang == "c++") and (draw(st.booleans()) if with_class is None else with_class)
     if wc:
-        lib["classes"].append(draw(klass(lang, fid, "Cls1", for_fortran, results, types)))
+        lib["classes"].append(draw(klass(lang, fid, "Cls1", for_fortran, results, types, rows)))
     return lib
 
 
@@ -277,7 +277,9 @@ SIMPLE_ROWS = ["N1", "B1", "S1in", "S3in", "N2out", "N2in"]
 # overload signatures: pairwise distinguishable by Fortran (type/kind/rank) and, in the LUA list,
 # by (count, Lua type)
 OVL_SIGS = [[], ["int"], ["double"], ["string"], ["int", "int"], ["bool"], ["int", "string"]]
-OVL_SIGS_LUA = [[], ["int"], ["string"], ["int", "int"], ["bool"], ["int", "string"], ["string", "bool"]]
+# (no (bool) next to (string): recorded known finding, the Lua wrapper passes std::string arguments
+#  as const char *, which C++ overload resolution converts to bool)
+OVL_SIGS_LUA = [[], ["int"], ["string"], ["int", "int"], ["int", "string"], ["string", "bool"], ["bool", "int"]]
 
 
 def _sig_param(i, t):
@@ -330,7 +332,7 @@ def default_func(draw, lang, fid, name, for_fortran=True):
 
 
 @st.composite
-def klass(draw, lang, fid, name, for_fortran=True, results=None, types=None):
+def klass(draw, lang, fid, name, for_fortran=True, results=None, types=None, rows=None):
     """classes.rst: constructors (overloaded), destructor, const / static methods, functions
     returning the class by pointer (+owner) and taking it by pointer / reference."""
     c = dict(name=name, ctors=[], methods=[], statics=[], makers=[], users=[], dtor_fid=None)
@@ -348,7 +350,7 @@ def klass(draw, lang, fid, name, for_fortran=True, results=None, types=None):
     fid += 1
     for i in range(draw(st.integers(1, 3))):
         f = draw(function(lang, fid, "method%d" % i, cls=name, kind="method", max_params=2, for_fortran=for_fortran,
-                          allowed=SIMPLE_ROWS, results=results, types=types))
+                          allowed=[r for r in SIMPLE_ROWS if rows is None or r in rows], results=results, types=types))
         c["methods"].append(f)
         fid += 1
     if draw(st.booleans()):
